@@ -121,6 +121,9 @@ def c06_worker(res: Result, i: int, n: int) -> None:
                     role, _ = refcodec.role_at(layout, c)
                     by_role[role] = by_role.get(role, 0) + 1
                     kinds = ("ro", "bytesio") if (c % 5 == 0 or res.counters.get("instances", 0) % 8 == 1) else ("ro",)
+                    if c % 5 == 2 or res.counters.get("instances", 0) % 8 == 3:
+                        # the usual place of a message body: behind other bytes of the same seekable stream (its header, earlier messages)
+                        kinds += ("bytesio_at_offset",)
                     if c % 7 == 3 or res.counters.get("instances", 0) % 16 == 2:
                         # the stream types of the io module, which code may single out with isinstance(): a raw (unbuffered) stream - here
                         # one that ends after c bytes, as a closed connection does - and a BufferedReader over it
@@ -150,6 +153,10 @@ def c06_worker(res: Result, i: int, n: int) -> None:
                             sa.close()
                             src = sb.makefile("rb", buffering=0)
                             closers += [src.close, sb.close]
+                        elif kind == "bytesio_at_offset":
+                            lead = bytes(rng.randrange(256) for _ in range(rng.choice((1, 2, 7, 40))))
+                            src = io.BytesIO(lead + raw[:c])
+                            src.seek(len(lead))
                         else:
                             src = (ReadOnlySource(raw, cut=c) if kind == "ro" else io.BytesIO(raw[:c]) if kind == "bytesio"
                                    else _EndedRaw(raw[:c]) if kind == "raw" else io.BufferedReader(_EndedRaw(raw[:c]), buffer_size=rng.choice((16, 8192))))
